@@ -770,15 +770,21 @@ def normalise(repo):
         return {}
     done = {}
     # leaves first: a helper is expanded into its callers only once it contains no expandable helper call itself
-    for _round in range(4):
+    force = False
+    for _round in range(6):
         changed_any = False
         pending = {}
         for q, h in helpers.items():
             cx = _Ctx(repo, h, helpers)
             pending[q] = any(_resolve_helper(cx, c) is not None for c in _own(h.node) if isinstance(c, ast.Call))
-        ready = {q: h for q, h in helpers.items() if not pending[q]}
+        # a helper whose own helper calls sit where they cannot be expanded (conditional expression, comprehension,
+        # recursion) would stay pending forever: once nothing moves any more it is expanded as it is
+        ready = {q: h for q, h in helpers.items() if force or not pending[q]}
         if not ready:
-            break
+            if force:
+                break
+            force = True
+            continue
         for fi in list(repo._funcs.values()):
             if fi.parent is not None and False:
                 continue
@@ -792,7 +798,9 @@ def normalise(repo):
                 for q in cx.inlined:
                     done[q] = done.get(q, 0) + 1
         if not changed_any:
-            break
+            if force or not any(pending.values()):
+                break
+            force = True
     return done
 
 
